@@ -628,6 +628,9 @@ func (x *gen) node(depth int) int {
 		n.Kids = []int{x.stack[r.Intn(len(x.stack)-1)]}
 	} else {
 		ops := []string{"seq", "seq", "seq", "any", "any", "choice", "opt", "many", "many1", "sepby", "sepby1", "seqtry", "seqfoa", "single", "suppress", "fwrap"}
+		if r.Chance(1, 3) {
+			ops = append(ops, "memo") // another Memoize around the operand (which may be memoised itself)
+		}
 		if x.o.Trims {
 			ops = append(ops, "ltrim", "rtrim", "rtrim")
 		}
